@@ -75,7 +75,8 @@ def handleEval : Handler := fun st op args =>
         Facts.fFlatControl, Facts.fCenter, Facts.fCenterControl, Facts.fThrowMine, Facts.fThrowTheirs,
         Facts.fThrowEmpty, Facts.fTerminalPlies, Facts.fTerminalFlats, Facts.fTerminalReserves,
         Facts.fTerminalOpponentReserves, Facts.maxFeature].map (fun (n : Nat) => (n : Int))))
-  | "weights", [tok] => some (st, withWeights tok 5 fmtInts)
+  -- every entry of the `[MaxFeature]int64` array (a fact list may omit trailing zeros)
+  | "weights", [tok] => some (st, withWeights tok 5 fun w => fmtInts ((List.range Facts.maxFeature).map w.at))
   | "eval", [ptok] => some (st, withPos ptok fun p => fmtRInt (evaluateDefault p.c p))
   | "evalw", [wtok, ptok] =>
     some (st, withPos ptok fun p => withWeights wtok p.cfg.size fun w => fmtRInt (evaluate p.c w p))
